@@ -212,6 +212,19 @@ def r03_2b(ctx):
         ctx.require(ok, 'R03.2', f'check_msgdict({t}).unknown-attribute', w,
                     f'an attribute the type does not have is not rejected with ValueError: {outs}',
                     construct=f'{fn.qname}::unknown-attribute')
+        # an attribute that belongs to OTHER message types (a valid value for it, so that only the name can be the objection)
+        foreign = sorted({nm for r2 in S for nm in r2['value_names']} - set(row['value_names']))
+        for nm in foreign:
+            def thunk3(nm=nm):
+                d = {'type': t}
+                d.update(mk)
+                d[nm] = () if nm == 'data' else 0
+                return ai.call_function(fn, [ADict(d)], {})
+            outs = ai.explore(thunk3)
+            ok = bool(outs) and all(o.kind == 'raise' and o.exc == 'ValueError' for o in outs)
+            ctx.require(ok, 'R03.2', f'check_msgdict({t}).foreign({nm})', w,
+                        f'{nm!r} is an attribute of other message types, not of {t}; it is not rejected with ValueError: {outs} '
+                        '(the message would carry an attribute its type does not have)', construct=f'{fn.qname}::foreign-attribute')
     outs = ai.explore(lambda: ai.call_function(fn, [ADict({'type': 'no_such_type', 'time': 0})], {}))
     ctx.require(all(o.kind == 'raise' and o.exc == 'ValueError' for o in outs), 'R03.2', 'check_msgdict.unknown-type', w,
                 f'unknown type outcomes: {outs}', construct=f'{fn.qname}::unknown-type')
